@@ -48,7 +48,8 @@ def prepare():
 
 EDITS = [("set_pts", 3), ("set_weights", 2), ("set_knots", 1.5), ("redefine", 1), ("set_delta", 2), ("set_sample", 2),
          ("insert", 2), ("remove", 1), ("refine", 0.7), ("reverse", 2), ("transpose", 1.5), ("flip", 1),
-         ("translate", 1.5), ("rotate", 0.8), ("scale", 1), ("deepcopy", 1.2), ("transform_copy", 0.8), ("set_tessellator", 0.5), ("degree_op", 0.6)]
+         ("translate", 1.5), ("rotate", 0.8), ("scale", 1), ("deepcopy", 1.2), ("transform_copy", 0.8), ("set_tessellator", 0.5), ("degree_op", 0.6),
+         ("scribble", 0.6)]
 REJECTS = ["bad_delta", "bad_sample", "bad_knots", "bad_point", "bad_insert", "bad_weights"]
 CONT_OPS = [("cadd", 3), ("cdelta", 1), ("csample", 1), ("cread", 3), ("ctess", 1), ("ccopy", 0.8)]
 
@@ -311,9 +312,11 @@ def _apply_edit(world, lv, op, rng):
         if via == "ctrlpts2d" and nd != 2:
             via = "set_ctrlpts"
         if via == "ctrlpts":
+            lv.caller_args = [("points", P)]
             obj.ctrlpts = P
         else:
             Pw = _weighted(P, shapes.gen_weights(rng, n)) if lv.rational else P
+            lv.caller_args = [("points", Pw)]
             if via == "set_ctrlpts":
                 obj.set_ctrlpts(Pw, *sizes)
             elif via == "ctrlptsw":
@@ -324,12 +327,15 @@ def _apply_edit(world, lv, op, rng):
     if e == "set_weights":
         if not lv.rational:
             return "skip"
-        obj.weights = shapes.gen_weights(rng, n, unit_chance=0.05)
+        W_ = shapes.gen_weights(rng, n, unit_chance=0.05)
+        lv.caller_args = [("weights", W_)]
+        obj.weights = W_
         return "ok"
     if e == "set_knots":
         d = op["dir"] % nd
         degs = shapes.definition(obj)["degrees"]
         kv = shapes.gen_knots(rng, degs[d], sizes[d])
+        lv.caller_args = [("knots", kv)]
         if nd == 1:
             obj.knotvector = kv
         else:
@@ -750,6 +756,33 @@ def run(script, ctx):
             if lv.warm:
                 lv.edited_warm = True
 
+        elif k == "scribble":
+            # NOT a library call: the caller goes on using the list it handed to a setter earlier (adjusts a knot, a coordinate,
+            # a weight to build its next object from it). The object holds its own data; nothing about it may change.
+            args = getattr(lv, "caller_args", None)
+            if not args:
+                ctx.ops_skipped += 1
+                continue
+            for what_, lst in args:
+                if what_ == "knots":
+                    for q in range(1, len(lst) - 1):
+                        if lst[q - 1] < lst[q] < lst[q + 1]:
+                            lst[q] = (lst[q] + lst[q + 1]) / 2.0
+                            break
+                    else:
+                        lst.append(lst[-1])
+                elif what_ == "weights":
+                    lst[0] = lst[0] * 2.0
+                    lst.reverse()
+                else:
+                    lst[0][0] = lst[0][0] + 1.0
+                    lst[-1] = [c * 0.5 for c in lst[-1]]
+            lv.caller_args = None
+            ctx.log("scribble", i, [a for a, _ in args])
+            ctx.ops_executed += 1
+            ctx.probe("caller_reused_its_argument_list_after_the_setter")
+            ctx.fault("caller_scribbles_over_passed_argument")
+
         else:
             if lv.undefined and k != "redefine":
                 ctx.ops_skipped += 1
@@ -795,6 +828,10 @@ def run(script, ctx):
                 other.prim = p
                 continue
             if other.prim is not None and p != other.prim:
+                if k == "scribble":
+                    ctx.fail("argument_aliased", "step %d: the caller modified a list it had passed to a setter of object #%s earlier - the primary "
+                             "definition of object #%d changed with it (the object does not hold its own data)" % (idx, i, j),
+                             op=k, kind=other.kind, rational=other.rational)
                 related = (other.pair == i) or (lv is not None and lv.pair == j)
                 ctx.fail("copy_not_independent" if related else "cross_object_leak",
                          "step %d (%s on object #%s) changed the primary definition of object #%d (%s)" % (
